@@ -2,10 +2,14 @@
    rate.arith  args: kind, writeDelay, since, chars (decimal ASCII)
      kind "z": the connection never wrote (lastWrite = zero Time): time.Since saturates at
                2^63-1 ns whatever the clock reads -> observation "wd' delay", exact;
-     kind "r": lastWrite = now - since on the real clock; the implementation reads the
-               clock a little later (elapsed = since + eps, eps >= 0), so the observation
-               is "floor(wd' / 10ms) delay" and the generator only emits cases whose
-               observation is the same for every eps in [0, 5ms] (see harness/suites/c16.go).
+     kind "r": lastWrite = now - since on the real clock (lastRate unset); the
+               implementation reads the clock a little later (elapsed = since + eps,
+               eps >= 0), so the observation is "floor(wd' / 10ms) delay" and the generator
+               only emits cases whose observation is the same for every eps in [0, 5ms]
+               (see harness/suites/c16.go);
+     kind "m": a fifth argument sinceRate: lastWrite = now - since, lastRate = now -
+               sinceRate (negative = unset); observation as for "r" plus "T" when lastRate
+               was advanced to the time of the call.
    rate.wire   args: one scenario per argument, see below. *)
 Require Import Bytes Rate.
 Open Scope Z_scope.
@@ -21,11 +25,16 @@ Definition obs_arith (args : list str) : str :=
   let w := zarg 1 args in
   let since := zarg 2 args in
   let chars := zarg 3 args in
+  let unset := - max_duration in                       (* the zero Time: before everything *)
+  let at_ (ago : Z) := if ago <? 0 then unset else - ago in
   if streqb kind (bs "z") then
-    let '(s, d) := rate (mkR w 0) max_duration chars in
+    let '(s, d) := rate (mkR w 0 0) max_duration chars in
     show_Z (wd s) ++ sp ++ show_Z d
+  else if streqb kind (bs "m") then
+    let '(s, d) := rate (mkR w (at_ since) (at_ (zarg 4 args))) 0 chars in
+    show_Z (wd s / 10000000) ++ sp ++ show_Z d ++ sp ++ show_bool (lastr s =? 0)
   else
-    let '(s, d) := rate (mkR w 0) since chars in
+    let '(s, d) := rate (mkR w (- since) unset) 0 chars in
     show_Z (wd s / 10000000) ++ sp ++ show_Z d.
 
 (* ---- rate.wire ------------------------------------------------------------------------
@@ -56,7 +65,7 @@ Definition obs_sync (lens : list Z) : str :=
                | [] => []
                | l :: r => (cost l, l, 0) :: map (fun x => (0, x, 0)) r
                end in
-  bs "S=" ++ pattern (snd (run_sync (mkR 0 0) steps)).
+  bs "S=" ++ pattern (snd (run_sync (mkR 0 0 0) steps)).
 
 Fixpoint mk_events (g : N) (id : N) (lens : list Z) : list event :=
   match lens with [] => [] | l :: r => mkE g id l :: mk_events g (N.succ id) r end.
@@ -79,7 +88,7 @@ Definition obs_tight (args : list Z) : str :=
       let per := (length lens / Z.to_nat g)%nat in
       let evs := zip_g 0 (chunk per lens (length lens)) in
       let acts := concat (map (fun e => send_piece false 0 e) evs) ++ map (fun _ => ADeliver 0) evs in
-      let s := fst (exec (sys0 (mkR 0 0)) acts) in
+      let s := fst (exec (sys0 (mkR 0 0 0)) acts) in
       bs "T=" ++ concat (map (fun k => bs "g" ++ show_N k ++ bs ":" ++ show_ids (events_of k (wire_events s)) ++ bs ";")
                             (map N.of_nat (seq 0 (Z.to_nat g))))
   | [] => bs "T=?"
@@ -88,14 +97,14 @@ Definition obs_tight (args : list Z) : str :=
 Definition obs_flood (args : list Z) : str :=
   let n := Z.to_nat (nth 0 args 0) in
   let lens := repeat 30 n in
-  let '(s, t) := send_flood true (sys0 (mkR 0 0)) 0 0 0 lens in
+  let '(s, t) := send_flood true (sys0 (mkR 0 0 0)) 0 0 0 lens in
   bs "F=" ++ show_nat (length (wire_events s)) ++ bs "/" ++ show_Z t ++ bs "/" ++
   (if forallb (fun p => N.eqb (ev_id (fst p)) (N.of_nat (snd p))) (combine (wire_events s) (seq 0 n)) then bs "ordered" else bs "reordered").
 
 Definition obs_keepalive : str :=
   let e1 := mkE 9 0 160 in
   let e2 := mkE 9 1 160 in
-  let '(s, ds) := exec (sys0 (mkR (9 * second) 0)) (pong_actions e1 ++ ping_actions e2 ++ [ADeliver 1; ADeliver 2]) in
+  let '(s, ds) := exec (sys0 (mkR (9 * second) 0 0)) (pong_actions e1 ++ ping_actions e2 ++ [ADeliver 1; ADeliver 2]) in
   bs "P=" ++ show_nat (length ds) ++ bs "/" ++ show_nat (length (wire s)).
 
 Definition obs_scenario (s : str) : str :=
